@@ -220,7 +220,14 @@ func (r *runner) doClose(cl *CloseSpec, pos int, with []Op) {
 // rawsocket peer whose writer waits for a client that stopped reading.
 func (r *runner) closeAllowance(ctx []string, with []Op) (time.Duration, string) {
 	allow, why := time.Duration(0), "nothing in flight waits for time"
+	// In the shape stalled-rawsocket-then-close the sessions that do not read are
+	// network clients without calls: no RESULT retry can be pending, only the
+	// per-peer bound applies.
+	tight := r.h.Shape == "stalled-rawsocket-then-close"
 	up := func(d time.Duration, w string) {
+		if tight && d == closeLimit {
+			return
+		}
 		if d > allow {
 			allow, why = d, w
 		}
@@ -246,18 +253,25 @@ func (r *runner) closeAllowance(ctx []string, with []Op) (time.Duration, string)
 			up(holdFallback+time.Second, "a message is held in a handler by a harness gate")
 		}
 	}
+	nRaw := 0
 	r.mu.Lock()
 	defer r.mu.Unlock()
 	if r.lastStalled >= 0 && r.now()-r.lastStalled <= yieldRetryMax {
 		up(closeLimit, "a session did not read during the last 66 s: RESULT retries may be pending")
 	}
 	for _, s := range r.sess {
-		if s.spec.Raw && s.gone == "" {
-			up(closeLimit, "a rawsocket session is attached (its Close waits for the writer goroutine)")
+		if s.spec.Raw {
+			// Close of a network peer waits for its sender, whose pending write is
+			// bounded by ctrlTimeout (5 s) since /repo 313de37; the peers of one
+			// realm are closed one after the other
+			nRaw++
 		}
 		if s.stalled && s.gone == "" {
 			up(closeLimit, "a session does not read: RESULT retries may be pending")
 		}
+	}
+	if nRaw > 0 && allow < closeLimit {
+		up(allow+time.Duration(nRaw)*peerCloseBound+time.Second, fmt.Sprintf("%d rawsocket peer(s): closing one waits for its sender, at most 5 s each", nRaw))
 	}
 	return allow, why
 }
@@ -386,6 +400,13 @@ func (r *runner) lateAPI() {
 
 // stopHarness stops drainers and senders of every session.
 func (r *runner) stopHarness() {
+	for _, s := range r.sess {
+		if s.spec.Raw && r.routerDown {
+			// the hand-made rawsocket client has goroutines of its own; the
+			// router is gone, nothing is observed through it any more
+			s.cli.Close()
+		}
+	}
 	for _, s := range r.sess {
 		select {
 		case <-s.stop:
